@@ -251,13 +251,15 @@ def fam_history(ctx, rng):
                 path = os.path.join(d, f"s{step}.json")
                 files.append(path)
                 before = snap.snap(pool[i])
-                pool[i].save(path)
+                import pathlib
+                path_arg = pathlib.Path(path) if rng.random() < 0.3 else path
+                pool[i].save(path_arg)
                 ctx.check(snap.snap(pool[i]) == before, "save-leaves-object-unchanged", "save() changed the settings object", **info)
                 if op == "save-load":
                     new = getattr(hvsrpy, names[i])()
-                    new.load(path)
+                    new.load(path_arg)
                 else:
-                    new = hvsrpy.read_settings_object_from_file(path)
+                    new = hvsrpy.read_settings_object_from_file(path_arg)
                     ctx.check(type(new) is type(pool[i]), "dispatch-reader-same-class",
                               f"read_settings_object_from_file returned {type(new).__name__} for a {names[i]}", **info)
                 ok = type(new) is type(pool[i]) and content(new) == content(pool[i])
